@@ -109,7 +109,7 @@ func generate(prop, tier string, rng *Rng) []Case {
 	case "C15":
 		return append(genRangeUnit(tier), genC15Hist(tier, rng)...)
 	case "C06":
-		return genRecompUnit()
+		return append(genRecompUnit(), genRecompE2E(tier, rng)...)
 	case "C07":
 		return append(genMetaUnit(tier, rng), genC07Hist(tier, rng)...)
 	case "C10":
